@@ -187,7 +187,7 @@ func c05adapter(r *Run, rep *core.Report, host, w *ssa.Function, arg ssa.Value, 
 		}
 		if cl.Signature.Recv() != nil && userWrapper {
 			// method value adapter: it wraps the user's function only if its receiver carries a function
-			userWrapper = false
+			userWrapper = isFuncTyped(cl.Signature.Recv().Type().Underlying()) // a named function type: the receiver is the function
 			if st := core.StructOf(cl.Signature.Recv().Type()); st != nil {
 				for i := 0; i < st.NumFields(); i++ {
 					if isFuncTyped(st.Field(i).Type()) {
